@@ -372,11 +372,10 @@ impl Scenario for C08 {
             let at = at_of(*off).1;
             if at >= t_sub as i64 {
               (at as u64, Some(at as u64))
-            } else if at >= t_build as i64 {
-              // the instant passed between building and subscribing: "at the instant" is no longer possible
-              (t_sub, None)
             } else {
-              (t_sub, None)
+              // the instant has passed already: the tick is overdue, so an executor
+              // that runs as timers fall due delivers it at once
+              (t_sub, Some(t_sub))
             }
           }
           _ => unreachable!(),
